@@ -43,6 +43,7 @@ type gen struct {
 	mixed bool // mixed line endings
 	nname int
 	ncmt  int
+	nverb int
 	br    int // bracket depth: > 0 means newlines are not significant
 	noNL  bool
 	// verbatim: literal text that must survive formatting byte for byte
@@ -81,7 +82,7 @@ func (g *gen) gap(s string) {
 }
 
 func (g *gen) pick(ss ...string) string { return ss[g.r.Intn(len(ss))] }
-func (g *gen) p(n int) bool            { return g.r.Intn(n) == 0 }
+func (g *gen) p(n int) bool             { return g.r.Intn(n) == 0 }
 
 func (g *gen) newline() string {
 	if g.mixed {
@@ -984,11 +985,15 @@ func (g *gen) quoted(d int) {
 			if prevDollar && strings.HasPrefix(c, "{") {
 				c = "_" + c
 			}
-			g.tok(c)
-			if len(c) >= 4 {
+			prevDollar = strings.HasSuffix(c, "$") || strings.HasSuffix(c, "%")
+			if len(c) >= 4 && !prevDollar {
+				// a serial number makes the text unique in the file, so that "appears
+				// exactly once before and after formatting" speaks about this literal
+				g.nverb++
+				c += fmt.Sprintf("s%d", g.nverb)
 				g.verb = append(g.verb, c)
 			}
-			prevDollar = strings.HasSuffix(c, "$") || strings.HasSuffix(c, "%")
+			g.tok(c)
 		case x < 7:
 			g.tok(g.pick(strEscapes...))
 			prevDollar = false
@@ -1154,10 +1159,19 @@ func (g *gen) heredoc() {
 		if strings.TrimSpace(l) == marker {
 			l += "_"
 		}
-		g.tok(l + nl)
 		if len(l) >= 4 {
-			g.verb = append(g.verb, l+nl)
+			g.nverb++
+			id := fmt.Sprintf("h%d", g.nverb)
+			switch {
+			case !strings.HasSuffix(l, " ") && !strings.HasSuffix(l, "\t"):
+				l += " " + id
+				g.verb = append(g.verb, l+nl)
+			case !strings.HasPrefix(l, " ") && !strings.HasPrefix(l, "\t"):
+				l = id + " " + l
+				g.verb = append(g.verb, l+nl)
+			}
 		}
+		g.tok(l + nl)
 	}
 	ind := ""
 	if g.p(2) {
